@@ -135,6 +135,42 @@ def check_amqp_conversations(ctx):
     ctx.sample({"kind": "amqp-conversation", "order": meta[1][1], "items": len(res[1]["items"])})
 
 
+def check_h2c_upgrades(ctx):
+    """HTTP/1.1 connections that change to HTTP/2 in the middle (h2c upgrade after 0..3 ordinary exchanges, answered on
+    stream 1, more streams afterwards), dissected client half first and server half first: the ordinary exchanges pair
+    k-th with k-th, the upgrade request pairs with the 101 AND (as stream 1) with the HTTP/2 answer, every later stream by
+    its id; nothing answered stays in the matcher (the oracle of the HTTP/2 family, C04)."""
+    try:
+        from fam import http as H
+        from props import C04
+    except Exception as ex:
+        ctx.note("HTTP family not available: %s" % ex)
+        return
+    cases = [(c, m) for c, m in C04.gen_cases(ctx) if m.get("mode") == "h2c"]
+    runs = []
+    for c, m in cases:
+        for first in ("c", "s"):
+            cc = json.loads(json.dumps(c))
+            cc["first"] = first
+            cc.pop("sched", None)
+            cc["id"] = len(runs)
+            runs.append((cc, m))
+    res = H.run_cases(ctx, [c for c, _ in runs])
+    reported = 0
+    for c, m in runs:
+        r = res.get(c["id"])
+        if r is None:
+            ctx.broken.append("K_h2c: harness did not answer case %d" % c["id"])
+            return
+        # pairing only: how exactly a paired stream's fields are reported is property C04's business
+        devs = [d for d in C04.evaluate(c, m, r) if not d[1].startswith("stream ")]
+        ctx.count_case(("h2c-upgrade", json.dumps(c, sort_keys=True)[:3000]), True, "h2c-upgrade-%d-before" % len(m.get("pre") or []))
+        if devs and reported < 2:
+            reported += 1
+            ctx.violation({"kind": "h2c-upgrade", "first_half": c["first"], "exchanges_before_upgrade": len(m.get("pre") or []),
+                           "why": [d[1] for d in devs][:6], "case": c, "how": "vh-http run (case on stdin)"})
+
+
 def run(ctx):
     ctx.build_harness()
     if not ctx.harness_tagged:
@@ -197,6 +233,7 @@ def run(ctx):
                 ctx.broken.append("K_seq[%s]: model and implementation differ on history %s" % (proto, M.hist_line(proto, hists[bad[0]])))
     check_keyed(ctx, coq_ok)
     check_amqp_conversations(ctx)
+    check_h2c_upgrades(ctx)
     ctx.trusted += [
         "translator vh-translate/idents.go (go/ast: Sprintf keys of the handlers and readers)",
         "gated-reader harness vh-match (one message per read; a side has handled a message when it asks for input again)",
@@ -206,7 +243,8 @@ def run(ctx):
     return ctx.finish(
         rule="arrival histories: every order-preserving merge of the client and server message sequences for the listed small conversations "
              "(one connection: up to 3x3 quick / 4x4 thorough exchanges incl. unanswered and early responses; two connections sharing the matcher) plus seeded long ones on 1-3 connections; "
-             "run on the real redis and http Dissect through gated readers; non-trivial = at least one answered pair and three messages",
+             "run on the real redis and http Dissect through gated readers; AMQP family conversations in three half orders; HTTP/1.1 connections upgraded to "
+             "h2c after 0..3 ordinary exchanges in both half orders; non-trivial = at least one answered pair and three messages",
         assumptions=["each direction of a connection is dissected by one goroutine", "sync.Map linearizable"])
 
 
